@@ -70,7 +70,7 @@ class C06(PureCheck):
         for k in range(nj):
             sep = rng.choice(seps)
             items = [rng.choice(items_pool) for _ in range(rng.randrange(4))]
-            yield {"op": "join", "sep": sep, "items": items}
+            yield {"op": "join", "sep": sep, "items": items, "it": k % 6}
 
     def execute(self, inp):
         return fmtlib.exec_op(inp)
